@@ -115,6 +115,14 @@ def _isnan_scalar(value, param_name):
         )
 
 
+def _is_integer_scalar(value):
+    """Whether value is a NumPy / JAX integer scalar (0-d integer array or NumPy integer)."""
+    dtype = getattr(value, "dtype", None)
+    if dtype is None or getattr(value, "ndim", None) != 0:
+        return False
+    return getattr(dtype, "kind", "") in "iu"
+
+
 def validate_float_or_int(value, param_name, optional=False):
     """
     Validates whether a given value is a float or an integer, and not nan.
@@ -144,7 +152,11 @@ def validate_float_or_int(value, param_name, optional=False):
 
     if not isinstance(value, (float, int)):
         try:
-            value = float(value)
+            if _is_integer_scalar(value):
+                # NumPy / JAX integer scalars stay integers (an integer rank is a count, not a fraction)
+                value = int(value)
+            else:
+                value = float(value)
         except (TypeError, OverflowError):
             its_type = type(value)
             raise ValueError(
